@@ -514,7 +514,11 @@ class BackendZ3(Backend):
 
     @condom
     def StringV(self, ast):
-        return z3.StringVal(_z3_string_encode(ast.args[0]), ctx=self._context)
+        return self._string_literal(ast.args[0])
+
+    def _string_literal(self, text: str):
+        """The Z3 string constant that consists of exactly the characters of `text`."""
+        return z3.StringVal(_z3_string_encode(text), ctx=self._context)
 
     @condom
     def StringS(self, ast):
@@ -966,11 +970,16 @@ class BackendZ3(Backend):
 
                 # Construct the extra constraint so we don't get the same result anymore
                 if i + 1 != n:
+                    # (a string value goes back as the characters it consists of: handed to z3 as a plain str, a
+                    # found `\u{41}` would be read as an escape and exclude "A" instead)
+                    found = [self._string_literal(v) if isinstance(v, str) else v for v in r]
                     if len(exprs) == 1:
-                        solver.add(exprs[0] != r[0])
+                        solver.add(exprs[0] != found[0])
                     else:
                         solver.add(
-                            self._op_raw_Not(self._op_raw_And(*[(ex == ex_v) for ex, ex_v in zip(exprs, r, strict=False)]))
+                            self._op_raw_Not(
+                                self._op_raw_And(*[(ex == ex_v) for ex, ex_v in zip(exprs, found, strict=False)])
+                            )
                         )
                     model = None
         finally:
@@ -1051,6 +1060,8 @@ class BackendZ3(Backend):
         return z3.simplify(e).eq(z3.BoolVal(True, ctx=self._context))
 
     def _solution(self, expr, v, extra_constraints=(), solver=None, model_callback=None):
+        if isinstance(v, str):
+            v = self._string_literal(v)
         return self._satisfiable(
             extra_constraints=(expr == v, *tuple(extra_constraints)), solver=solver, model_callback=model_callback
         )
